@@ -23,6 +23,7 @@ from fractions import Fraction
 
 HERE = os.path.dirname(os.path.dirname(os.path.abspath(__file__)))
 NPROC = int(os.environ.get("VERIF_NPROC", "16"))
+EVDIR = os.environ.get("VERIF_EVIDENCE_DIR") or os.path.join(HERE, "evidence")
 
 
 # --------------------------------------------------------------------------
@@ -303,14 +304,14 @@ def replay_file(mod, path):
     return mod.run_case(case), d
 
 
-def write_replay(prop, case, msg, subdir="evidence/replays"):
-    d = os.path.join(HERE, subdir, prop)
+def write_replay(prop, case, msg):
+    d = os.path.join(EVDIR, "replays", prop)
     os.makedirs(d, exist_ok=True)
     fp = "%016x" % fingerprint(case)
     path = os.path.join(d, fp + ".json")
     with open(path, "w") as f:
         json.dump({"property": prop, "expect": "pass", "msg": msg, "case": _enc(case)}, f, indent=1)
-    return os.path.relpath(path, HERE)
+    return os.path.relpath(path, HERE) if path.startswith(HERE) else path
 
 
 def main(argv):
@@ -447,8 +448,8 @@ def main(argv):
         "violations": len(violations),
         "known_findings": known_lines,
     }
-    os.makedirs(os.path.join(HERE, "evidence"), exist_ok=True)
-    with open(os.path.join(HERE, "evidence", prop + ".json"), "w") as f:
+    os.makedirs(EVDIR, exist_ok=True)
+    with open(os.path.join(EVDIR, prop + ".json"), "w") as f:
         json.dump(ev, f, indent=1)
     for l in known_lines:
         print(l)
